@@ -621,3 +621,66 @@ def r9(R):
     R.require(seen[0] or vs, 'findrefs no longer calls referencesf')
     for v in vs:
         R.violation(v.node, v.message, g, v.path)
+
+
+# ----------------------------------------------------------------- C07.R10
+@rule('C07.R10', 'the packer, like finish and the open-time scan, does not '
+      'take the records of a transaction with status "u" (undone, copied '
+      'from an old source with its status) for current ones', props=['C08',
+                                                                      'C09'],
+      min_instances=2)
+def r10(R):
+    sites = [(GC, 'buildPackIndex', 'setitem', ('self', 'oid2curpos'),
+              'the pack index of current records'),
+             (PACKER, 'copyOne', 'call', ('self', 'index', 'update'),
+              'the index of the packed file')]
+    for cq, meth, kind, path, what in sites:
+        cls = R.prog.cls(cq)
+        f = R.method(cls, meth)
+        g, b, F = R.cfg(f, cls, max_depth=0)
+        seen = [0]
+
+        def hit(op, kind=kind, path=path):
+            return op.kind == kind and op.path is not None and \
+                tuple(op.path) == path
+
+        def edge(node, st, lab, tgt, F=F):
+            if node.kind == 'test' and lab in ('T', 'F'):
+                for e, truth in implied_atoms(node.ast, lab):
+                    if isinstance(e, ast.Compare) and len(e.ops) == 1 and \
+                            isinstance(e.ops[0], (ast.Eq, ast.NotEq)) and \
+                            isinstance(e.comparators[0], ast.Constant) and \
+                            e.comparators[0].value in ('u', b'u') and \
+                            isinstance(e.left, ast.Attribute) and \
+                            e.left.attr == 'status':
+                        is_u = isinstance(e.ops[0], ast.Eq) == truth
+                        return 'undone' if is_u else 'not-undone'
+            if lab in ('e', 'eb'):
+                return st
+            for op in F.ops(node):
+                # the next transaction header is read: nothing known
+                if op.kind == 'call' and op.path and \
+                        op.path[-1] == '_read_txn_header':
+                    st = 'unknown'
+            return st
+
+        def at(node, st, what=what, meth=meth, F=F, seen=seen, hit=hit):
+            for op in F.ops(node):
+                if hit(op):
+                    seen[0] += 1
+                    if st != 'not-undone':
+                        return Violation(
+                            '%s enters records into %s without having '
+                            'excluded a transaction of status "u": the '
+                            'running storage and the open-time scan do not '
+                            'index such records, so the pack makes an '
+                            'undone revision the object\'s current state' % (
+                                meth, what))
+            return st
+
+        vs, stats = explore(g, 'unknown', at=at, edge=edge)
+        R.count(stats)
+        R.instance('%s.%s' % (cls.name, meth), index_updates=seen[0])
+        R.require(seen[0] or vs, '%s no longer updates %s' % (meth, what))
+        for v in vs:
+            R.violation(v.node, v.message, g, v.path)
